@@ -5,7 +5,7 @@ REQUIRED = ["CifModel.C10_to_double_big", "CifModel.C10_to_double_zero", "CifMod
             "CifModel.C10_rne_is_nearest", "CifModel.C10_syntax", "CifModel.C10_su_scaled", "CifModel.C10_rejects_unchanged", "CifModel.C10_accepts_fields",
             "CifModel.C10_exponent_no_overflow", "CifModel.C10_scale_within_int", "CifModel.C10_cex_scale_exceeds_int_pinned",
             "CifModel.C10_scale_within_int_pinned_refuted",
-            "CifModel.C10_init_correctly_rounded", "CifModel.C10_init_text_roundtrip", "CifModel.C10_autoinit_text_roundtrip", "CifModel.C10_autoinit_scale", "CifModel.C10_limbs_shr_pass", "CifModel.C10_limbs_shl_pass", "CifModel.C10_limbs_round_to_int", "CifModel.C10_limbs_carry_loop",
+            "CifModel.C10_init_correctly_rounded", "CifModel.C10_init_text_roundtrip", "CifModel.C10_autoinit_text_roundtrip", "CifModel.C10_autoinit_scale", "CifModel.C10_msp_exact", "CifModel.C10_limbs_shr_pass", "CifModel.C10_limbs_shl_pass", "CifModel.C10_limbs_round_to_int", "CifModel.C10_limbs_carry_loop",
             "CifModel.Lemmas.NumbLimbLink.link_limb_arrays",
             "CifModel.Lemmas.NumbLink.link_chars", "CifModel.Lemmas.NumbLink.link_int", "CifModel.Lemmas.NumbLink.link_float",
             "CifModel.Lemmas.NumbLink.link_bignum", "CifModel.Lemmas.NumbLink.link_misc", "CifModel.Lemmas.NumbLink.link_ldexp"]
@@ -20,7 +20,7 @@ TRUSTED_BASE = [
     "glibc strtod (reference conversions printed by the executors; cross-checked against the exact integer computation)",
     "libm log10/floor/frexp/ldexp and printf(\"%.*e\") as used by the C: log10-based estimates enter the model as exact integer "
     "logarithms (to_double: checked over the full leading-digit x decimal-exponent table on every run; MSP(val): a parameter of the "
-    "model, fed from the observation and bounded by the oracle)",
+    "model, fed from the observation; the oracle demands the exact floor(log10|val|), C10_msp_exact)",
 ]
 ASSUMPTIONS = [
     "default floating-point rounding mode (FE_TONEAREST); the other branches of round_it are not modelled",
@@ -41,5 +41,5 @@ LEVEL_TEXT = ("Proof at the exact-arithmetic level: the model of to_double() ret
               "init_numb records the correctly rounded digit strings; the saturating exponent accumulation stays below 2^31 and the scale arithmetic of every accepted text of up to a line stays within int (C10_scale_within_int). "
               "Acceptance is proved (C10_syntax: parseNumb accepts exactly NumberSyntax, with the denoted fields). The init/autoinit text round trip is proved (C10_init_text_roundtrip). Autoinit chooses the largest scale with rounded su <= su_rule (C10_autoinit_scale).")
 LEVEL_NOTE = ("Partial parts: the limb level of the bignum code is modelled and its pass/rounding invariants are proved, the end-to-end refinement is "
-              "checked by execution on every request, not proved. One open finding (MSP over-estimate); two findings of this group are fixed (d4436fb, e89d5d7).")
+              "checked by execution on every request, not proved. No open finding; three findings of this group are fixed (d4436fb, e89d5d7, 0504c8d).")
 TECHNIQUE = "Lean 4 proofs about an executable exact-arithmetic model + differential execution against the real code with exact-rational oracles"
